@@ -55,10 +55,15 @@ STMT_BUNDLES = {
     'global_del': ['global {n}', "{n}='{t}'", 'del {n}'],
     'nonlocal': ['nonlocal {n}', "{n}='{t}'", 'obs({n})'],
     'nonlocal_load': ['nonlocal {n}', 'obs({n})'],
+    # the tracked name declared together with a user name taken from the renamer's own output alphabet
+    'assign_with_A': ["{n}='{t}'", "A='{t}a'", 'obs({n})', 'obs(A)'],
+    'global_with_A': ['global {n},A', "{n}='{t}'", "A='{t}a'", 'obs({n})', 'obs(A)', 'obs({n})'],
+    'global_load_with_A': ['global A,{n}', 'obs({n})', 'obs(A)', 'obs({n})'],
+    'nonlocal_with_A': ['nonlocal {n},A', "{n}={n}+'{t}'", "A=A+'{t}a'", 'obs({n})', 'obs(A)', 'obs({n})'],
     'ann_var_self': ["{n}:{n}='{t}'", 'obs({n})'],          # variable annotated with its own name (evaluated in module/class scope, not in functions)
     'ann_var_obs': ["v_:obs({n})=0", 'obs({n})'],
 }
-MODULE_EXCLUDED = ('global', 'global_load', 'global_del', 'nonlocal', 'nonlocal_load')
+MODULE_EXCLUDED = ('global', 'global_load', 'global_del', 'nonlocal', 'nonlocal_load', 'global_with_A', 'global_load_with_A', 'nonlocal_with_A')
 
 # def / adef: (params, call args, body statements)
 DEF_PARAM_BUNDLES = {
@@ -359,10 +364,23 @@ def emit(module):
 
 def bundles_for(kind, level, in_class=False):
     """bundle ids available to a scope kind at a bundle-alphabet `level` ('full' | 'mid' | 'core' | 'ann')"""
+    if level == 'withA':
+        # the tracked name declared / bound together with the user name A (a name the renamer itself hands out)
+        if kind in ('def', 'adef'):
+            return ['none', 'assign_with_A', 'nonlocal_with_A', 'global_with_A', 'global_load_with_A']
+        if kind == 'module':
+            return ['none', 'assign_with_A']
+        if kind == 'class':
+            return ['none', 'assign_with_A']
+        if kind == 'lambda':
+            return ['none', 'load']
+        return ['none', 'load_elt']
     if level == 'tiny':
         if kind in ('def', 'adef'):
             return ['none', 'load', 'assign', 'param_pos']
-        if kind in ('module', 'class'):
+        if kind == 'class':
+            return ['none', 'load', 'assign', 'store_only']      # store_only: bound in the class body but never read there
+        if kind == 'module':
             return ['none', 'load', 'assign']
         if kind == 'lambda':
             return ['none', 'load', 'param_default']
@@ -378,9 +396,10 @@ def bundles_for(kind, level, in_class=False):
             ids = [i for i in STMT_BUNDLES if not i.startswith('ann_var_')]
         elif level == 'mid':
             ids = ['none', 'load', 'assign', 'store_only', 'aug_only', 'ann_only', 'for', 'except', 'import', 'import_dotted', 'from_import', 'def', 'class', 'walrus', 'del',
-                   'match_capture', 'typeparam', 'load_before', 'global', 'global_load', 'nonlocal', 'nonlocal_load']
+                   'match_capture', 'typeparam', 'load_before', 'global', 'global_load', 'nonlocal', 'nonlocal_load', 'assign_with_A', 'global_with_A',
+                   'global_load_with_A', 'nonlocal_with_A']
         else:
-            ids = ['none', 'load', 'assign', 'global', 'nonlocal', 'load_before']
+            ids = ['none', 'load', 'assign', 'global', 'nonlocal', 'load_before'] + (['store_only'] if kind == 'class' else [])
         if kind == 'module':
             ids = [i for i in ids if i not in MODULE_EXCLUDED]
         if kind in ('def', 'adef'):
